@@ -268,6 +268,15 @@ def bytes_id(b):
     return z3.Function('bytes_id', BytesS, I)(b.t)
 
 
+class VRec(Val):
+    """a record with literal string keys (python-side value, e.g. a JSON object under construction)"""
+    ty = ('rec',)
+    t = None
+
+    def __init__(self, fields):
+        self.fields = dict(fields)
+
+
 class VRaw(Val):
     """a bare z3 term of arbitrary sort (ghost values)"""
     ty = ('raw',)
